@@ -18,15 +18,17 @@ RULE = (
     "then recomputed by the model over exactly the bytes the edited fields designate (unless the MAC itself is the edit), so only the structural rule under test "
     "is broken. Oracle: the independently written strict validator (vlib.bf3model.parse_body_strict, from the property text) decides accept/reject; the reader's "
     "decision must be the same in both directions and on accept the returned components must equal the model's parse. Any exception = reject. "
+    "Every binary is read a second time with check_cmac=False and judged by the same validator with its two MAC conditions switched off (all structural conditions stay); edit 'emaccut' ends an entry 1..16 bytes early, inside its MAC, with every size and address consistent. "
     "Non-trivial = an edited file whose MACs all verify under the model (the structural rule alone decides); distinct by case hash."
 )
 ASSUMPTIONS = [
     "declared length >= 1 throughout (object model cannot represent 0); components flagged encrypted keep a whole number of blocks (edits that break this are skipped and counted)",
     "any exception counts as rejection here (types are judged in C14)",
+    "check_cmac=False is read as: the two MAC conditions of the property are waived, every other condition is unchanged (observed on the unchanged reader over all generated edits)",
 ]
 REQUIRED_CLASSES = ["decision=accept", "decision=reject", "edited+macs-verify", "edit=adr", "edit=stored", "edit=declared", "edit=duptag", "edit=taglen",
                     "edit=desclen", "edit=entrylen", "edit=dirsize", "edit=sentinel", "edit=swap", "edit=payload", "edit=trailer", "edit=dummy", "edit=ivindex",
-                    "edit=macflip", "edit=entrytail", "entrytail.fixed-point", "unedited", "framing=bec2"]
+                    "edit=macflip", "edit=emaccut", "nomac.decision=reject", "nomac.decision=accept", "edit=entrytail", "entrytail.fixed-point", "unedited", "framing=bec2"]
 
 
 # ------------------------------------------------------------------ field structure
@@ -50,7 +52,7 @@ def serialise(s, key):
     """Render the structure; MACs marked None are computed over exactly what the edited fields designate."""
     ent_sizes = []
     for e in s["entries"]:
-        ent_sizes.append(12 + 16 + 1 + len(_tlv_bytes(e["tlvs"])) + len(e["pad"]) + 16 + (1 if e.get("tail") else 0))
+        ent_sizes.append(12 + 16 + 1 + len(_tlv_bytes(e["tlvs"])) + len(e["pad"]) + 16 + (1 if e.get("tail") else 0) - e.get("cut", 0))
     dir_len = sum(1 + n for n in ent_sizes) + len(s["sentinel"])
     body_start = len(s["header"]) + 4 + dir_len
     area = b"".join(s["payloads"]) + s["trailer"]
@@ -92,6 +94,8 @@ def serialise(s, key):
                 ent = found + e["tail"][0]
             else:
                 ent = ent + e["tail"][0]
+        if e.get("cut"):
+            ent = ent[: -e["cut"]]  # the entry ENDS inside its MAC (its size byte, the directory size and all addresses agree with that)
         if len(ent) > 255 or desc_len > 255:
             raise ValueError("entry does not fit its one-byte length")
         elen = len(ent) if e["entry_len"] is None else e["entry_len"]
@@ -107,7 +111,7 @@ def serialise(s, key):
 def apply_edit(s, ed, key):
     kind = ed[0]
     n = len(s["entries"])
-    if kind in ("adr", "stored", "declared", "duptag", "taglen", "desclen", "entrylen", "entrypad", "entrytail", "ivindex", "macflip") and n == 0:
+    if kind in ("adr", "stored", "declared", "duptag", "taglen", "desclen", "entrylen", "entrypad", "entrytail", "emaccut", "ivindex", "macflip") and n == 0:
         return False
     i = ed[1] % n if n and len(ed) > 1 and isinstance(ed[1], int) else 0
     e = s["entries"][i] if n else None
@@ -140,7 +144,7 @@ def apply_edit(s, ed, key):
     elif kind == "entrypad":
         e["pad"] = bytes(ed[2])
     elif kind == "entrytail":
-        if e.get("tail") or e["pad"] or e["entry_len"] is not None or e["emac"] is not None:
+        if e.get("tail") or e.get("cut") or e["pad"] or e["entry_len"] is not None or e["emac"] is not None:
             return False
         used = {t for t, ln, v in e["tlvs"]}
         free = [t for t in (0xEF, 0xEE, 0xED, 0xEC, 0xEB, 0xEA) if t not in used]
@@ -149,6 +153,10 @@ def apply_edit(s, ed, key):
             e["tlvs"].append((free[0], None, b"\x00"))
             marker = bytes([free[0], 1])  # the nonce tag is the LAST tag: serialise finds it with rfind
         e["tail"] = (bytes([ed[2] & 0xFF]), marker)
+    elif kind == "emaccut":
+        if e.get("tail") or e["entry_len"] is not None:
+            return False
+        e["cut"] = ed[2]
     elif kind == "dirsize":
         s["dir_size"] = max(0, _dirlen(s) + ed[1])
     elif kind == "sentinel":
@@ -202,7 +210,7 @@ def apply_edit(s, ed, key):
 
 
 def _dirlen(s):
-    return sum(1 + 12 + 16 + 1 + len(_tlv_bytes(e["tlvs"])) + len(e["pad"]) + 16 + (1 if e.get("tail") else 0) for e in s["entries"]) + len(s["sentinel"])
+    return sum(1 + 12 + 16 + 1 + len(_tlv_bytes(e["tlvs"])) + len(e["pad"]) + 16 + (1 if e.get("tail") else 0) - e.get("cut", 0) for e in s["entries"]) + len(s["sentinel"])
 
 
 def _auto_adr(s, i):
@@ -284,6 +292,26 @@ def check(case, rec):
         if verdict == "reject":
             raise Violation("reader ACCEPTS a binary the strict validator rejects (%s); edits %r; returned %r" % (why, case["edits"], [sut.obs_component(c) for c in g.components]))
         raise Violation("reader REJECTS (%s: %s) a binary that is well-formed and authentic per the strict validator; edits %r" % (type(exc).__name__, exc, case["edits"]))
+    # the same binary read with MAC checking switched OFF: the two MAC conditions drop out, every structural condition stays
+    try:
+        parsed_nomac = M.parse_body_strict(binary, len(header), key, check_mac=False)
+        verdict2, why2 = "accept", ""
+    except M.Reject as r:
+        parsed_nomac, verdict2, why2 = None, "reject", str(r)
+    if not (verdict2 == "accept" and any(c["actual_len"] < 1 for c in parsed_nomac)):
+        try:
+            if framing == "bec2":
+                g2 = sut.Bec2File.read_file(io.StringIO(text), dec, check_cmac=False).bf3file
+            else:
+                g2 = sut.Bf3File.read_file(io.StringIO(text), check_cmac=False, **({} if case["key"] is None else {"session_key": case["key"]}))
+            got2, exc2 = "accept", None
+        except Exception as e:
+            got2, exc2 = "reject", e
+        rec.cls("nomac.decision=" + verdict2)
+        if got2 != verdict2:
+            if verdict2 == "reject":
+                raise Violation("with check_cmac=False the reader ACCEPTS a binary that breaks a structural rule (%s); edits %r; returned %r" % (why2, case["edits"], [sut.obs_component(c) for c in g2.components]))
+            raise Violation("with check_cmac=False the reader REJECTS (%s: %s) a binary that is structurally well-formed per the strict validator; edits %r" % (type(exc2).__name__, exc2, case["edits"]))
     if verdict == "accept":
         if len(g.components) != len(parsed):
             raise Violation("accepted, but reader returns %d components, fields say %d" % (len(g.components), len(parsed)))
@@ -310,6 +338,7 @@ def edit_strategy():
         st.tuples(st.just("entrypad"), _idx, st.integers(1, 3)),
         st.tuples(st.just("entrytail"), _idx, st.integers(0, 255), st.booleans()),
         st.tuples(st.just("entrytail"), _idx, st.integers(0, 255), st.just(True)),
+        st.tuples(st.just("emaccut"), _idx, st.integers(1, 16)),
         st.tuples(st.just("dirsize"), st.sampled_from([-2, -1, 1, 2, 16, 255, 65536])),
         st.tuples(st.just("sentinel"), st.integers(0, 3), st.integers(0, 254)),
         st.tuples(st.just("swap"), _idx, st.booleans()),
